@@ -160,7 +160,7 @@ def run_tlc(module, cfg, workdir, env=None, workers=1, timeout=1800, extra=(), x
     e.pop("JAVA_TOOL_OPTIONS", None)
     if env:
         e.update(env)
-    cmd = ["java", "-XX:+UseParallelGC", f"-Xmx{xmx}", f"-Djava.io.tmpdir={os.path.join(BUILD, 'tmp')}", "-cp", TLA_CP,
+    cmd = ["java", "-XX:+UseParallelGC", "-Xss128m", f"-Xmx{xmx}", f"-Djava.io.tmpdir={os.path.join(BUILD, 'tmp')}", "-cp", TLA_CP,
            "tlc2.TLC", "-workers", str(workers), "-metadir", meta, "-config", cfg]
     if simulate:
         cmd += ["-simulate", simulate]
